@@ -3,7 +3,7 @@ import itertools, os
 from common import *
 
 PID = 'C11'
-TARGETS = ['Properties/C11.vo', 'Bridge/FragBridge.vo', 'Bridge/MiscFragBridge.vo']
+TARGETS = ['Properties/C11.vo', 'Bridge/FragBridge.vo', 'Bridge/MiscFragBridge.vo', 'Proofs/FragContinue.vo']
 KERNELS = ['G1_frag', 'G20a_frag_misc']
 PROP_FILE = 'Properties/C11.v'
 DESIGN_REF = 'DESIGN.md section 8, C11'
@@ -195,6 +195,26 @@ def run(tier, seed, rng):
         if o != want:
             failures.append(dict(kind='oracle', history=h, observed=o, required=want, sig='continued-after-collision',
                                  what='Fragments history in which the caller catches collisions and goes on: a rejected insertion must leave stored bytes, extent and cursor as they were'))
+    # ... and the Coq model on the same continued histories (Proofs/FragContinue.run_ops_c: a rejected operation is skipped)
+    HEADER_C = ("From Coq Require Import ZArith List Bool.\nFrom Bisturi Require Import Base.Bytes Kernel.Frag Proofs.FragContinue.\n"
+                "Import ListNotations. Open Scope Z_scope.\n"
+                "Definition eqb_l (a b : list Z) : bool := (Z.of_nat (length a) =? Z.of_nat (length b)) && forallb (fun p => fst p =? snd p) (combine a b).\n"
+                "Definition same_c (ops : list op) (want : bytes * Z * list Z) : bool :=\n"
+                "  let '(s, bad) := run_ops_c empty ops 0 in let '(b, c, r) := want in eqb_l (tobytes s) b && (cur s =? c) && eqb_l bad r.\n"
+                "Fixpoint bad_c (i : Z) (cs : list (list op * (bytes * Z * list Z))) : list Z :=\n"
+                "  match cs with [] => [] | (ops, o) :: r => if same_c ops o then bad_c (i + 1) r else i :: bad_c (i + 1) r end.\n")
+    cfiles, cidx = [], []
+    okc = [(h, o) for h, o in zip(chs, couts) if o[0] == 'ok']
+    for i, part in enumerate(shard(okc, 500)):
+        body = ";\n".join(f"([{'; '.join(op_to_coq(op) for op in h)}], ({blit(bytes.fromhex(o[1]))}, {zlit(o[2])}, [{'; '.join(str(x) for x in o[3])}]))" for h, o in part)
+        cfiles.append((f"cont_{i}", HEADER_C + f"Definition cases : list (list op * (bytes * Z * list Z)) := [\n{body}\n].\nEval vm_compute in (bad_c 0 cases).\n"))
+    cres = coq_eval_files(cfiles)
+    cont_dis = []
+    for i in range(len(cfiles)):
+        for j in parse_coq_list(cres[f"cont_{i}"]):
+            h, o = okc[i * 500 + j]
+            cont_dis.append(dict(kind='correspondence', history=h, implementation=o,
+                                 what='model Proofs/FragContinue.run_ops_c and bisturi.fragments.Fragments differ on this history (collisions caught, the caller goes on)'))
     # ---- Tie B: the Coq model on the same histories
     files = []
     csize = 500
@@ -209,7 +229,8 @@ def run(tier, seed, rng):
             idx = i * csize + j
             disagreements.append(dict(kind='correspondence', history=hs[idx], implementation=outcomes[idx],
                                       what='model Kernel/Frag.v and bisturi.fragments.Fragments differ on this history'))
-    return dict(evaluations=len(hs), distinct_nontrivial=len(nontrivial), exhaustive_part=nex,
+    disagreements += cont_dis
+    return dict(evaluations=len(hs) + len(chs), distinct_nontrivial=len(nontrivial), exhaustive_part=nex,
                 rule=("all histories of insert(p, chunk)/append(chunk) up to the tier's length bound over a small position and "
                       "chunk-length range (exhaustive), plus random histories of 4..9 insert/append/extend/set-cursor steps over "
                       "positions 0..24; non-trivial = at least two operations; distinct by the full operation list"),
